@@ -51,6 +51,7 @@ SUBST = ['A', 'B', 'C', 'D']
 _CLS = {'UnitLength': L, 'UnitMass': M, 'UnitTime': T, 'UnitCurrent': I, 'UnitTemperature': TH,
         'UnitLuminousIntensity': J, 'UnitSubstance': N}
 RTOL = 1e-10
+RATES_INT_KEY = 'rates:inplace-add-integer-dtype'
 
 
 def _dadd(a, b, k=1):
@@ -99,10 +100,78 @@ def _real(q):
         return float(F(q['num']))
     if 'unitobj' in q:
         return getattr(u, q['unitobj'])
+    if q.get('mt'):
+        # the magnitude by TYPE: pq.Quantity(<typed value>, <unit>) keeps int64 / int32 / float32 / object dtypes
+        unit = cu.pq.dimensionless
+        for name, e in q['u']:
+            unit = unit * getattr(u, name) ** e
+        return cu.pq.Quantity(_typed(q['mag'], q['mt']), unit)
     r = float(F(q['mag'])) * cu.pq.dimensionless if not q['u'] else float(F(q['mag']))
     for name, e in q['u']:
         r = r * getattr(u, name) ** e
     return r
+
+
+MAG_TYPES_INT = ['int', 'int64', 'int32', 'float32', 'Fraction']
+
+
+def _typed(mag, mt):
+    import numpy as np
+    v = F(mag)
+    if mt == 'int':
+        assert v.denominator == 1
+        return int(v)
+    if mt in ('int64', 'int32'):
+        assert v.denominator == 1
+        return getattr(np, mt)(int(v))
+    if mt == 'float32':
+        x = np.float32(float(v))
+        assert F(float(x)) == v
+        return x
+    if mt == 'Fraction':
+        return v
+    raise ValueError(mt)
+
+
+def _f32_exact(mag):
+    import struct
+    v = F(mag)
+    try:
+        return F(struct.unpack('f', struct.pack('f', float(v)))[0]) == v
+    except (OverflowError, struct.error):
+        return False
+
+
+def _typify(rng, q, p=0.4, free=False):
+    """with probability p give a quantity a magnitude TYPE other than a Python float.  `free`: the magnitude carries no
+    physical constraint and may be replaced by an integer so that the integer types apply."""
+    if q is None or 'u' not in q or rng.random() >= p:
+        return q
+    q = dict(q)
+    if free and rng.random() < 0.7:
+        q['mag'] = str(rng.randint(1, 999))
+    v = F(q['mag'])
+    if v.denominator == 1 and abs(v) < 2 ** 31:
+        q['mt'] = rng.choice(MAG_TYPES_INT if _f32_exact(q['mag']) else ['int', 'int64', 'int32', 'Fraction'])
+    else:
+        q['mt'] = rng.choice(['Fraction', 'float32'] if _f32_exact(q['mag']) else ['Fraction'])
+    return q
+
+
+def _typed_array(rng, n, ul):
+    """a Quantity ARRAY with an integer / float32 dtype (one unit): {"mags": [...], "u": ul, "mt": dtype}"""
+    mt = rng.choice(['int64', 'int32', 'float32', 'int'])
+    return {'mags': [str(rng.randint(1, 999)) for _ in range(n)], 'u': ul, 'mt': mt}
+
+
+def _real_array(a):
+    import numpy as np
+    cu = _cu()
+    unit = cu.pq.dimensionless
+    for name, e in a['u']:
+        unit = unit * getattr(cu.default_units, name) ** e
+    dt = {'int': int, 'int64': np.int64, 'int32': np.int32, 'float32': np.float32}[a['mt']]
+    return cu.pq.Quantity(np.array([int(m) for m in a['mags']], dtype=dt), unit)
 
 
 def _mj(q):
@@ -308,6 +377,24 @@ def _config(rng, subst, rxns, phys_k, phys_c):
     return {'reg': reg, 'ks': ks, 'c0': cs, 't': {'mag': _rand_mag(rng), 'u': [[tu, 1]]}}
 
 
+def _typed_config(rng, subst, rxns):
+    """a configuration written with INTEGER magnitudes of assorted types; returns (config, phys_k, phys_c)"""
+    reg = _rand_reg(rng)
+    ks, cs, phys_k, phys_c = [], {}, [], {}
+    for r in rxns:
+        ul = _rate_unit(rng, sum(r['reac'].values()))
+        m = rng.randint(1, 999)
+        ks.append(_typify(rng, {'mag': str(m), 'u': ul}, p=0.8))
+        phys_k.append(m * _book_u(ul)[0])
+    for x in subst:
+        ul = _conc_units(rng)
+        m = rng.randint(1, 999)
+        cs[x] = _typify(rng, {'mag': str(m), 'u': ul}, p=0.8)
+        phys_c[x] = m * _book_u(ul)[0]
+    t = _typify(rng, {'mag': str(rng.randint(1, 999)), 'u': [[rng.choice(TIME_UNITS), 1]]}, p=0.8)
+    return {'reg': reg, 'ks': ks, 'c0': cs, 't': t}, phys_k, phys_c
+
+
 def _eq_quirk_class(c):
     """EXPLICIT predicate (on the case description only) for the one class in which the exact model and the real
     `Equilibrium.check_consistent_units` may legitimately differ: the constant is a Quantity whose exponent vector and EXACT
@@ -365,6 +452,9 @@ class C10(Property):
         'that the symbolic system built by pyodesys/sympy evaluates to the shared kinetics model (Kinetics.sysRates, C03/C04): correspondence only',
         'rejection of a wrongly-dimensioned constant at get_odesys time when the Reaction was built with checks=(): not required by the property '
         '("accepted system"); notes/C10.md finding 5',
+        'independence of the TYPE of a magnitude (Python int, numpy int64 / int32 / float32 scalars and arrays, Fraction / object dtype): the '
+        'model has one exact number type; decided by correspondence + oracle (typed configurations vs the same physics in floats)',
+        'from_string reading of parenthesised (inactive) species: C12; here only its result is compared with what was written',
         'Equilibrium.as_reactions with param=(kf, kb) tuples: oracle only (the model covers kf-given / kb-given / none / both)',
     )
     anchors = [('chempy/chemistry.py', 'Equilibrium.as_reactions'), ('chempy/chemistry.py', 'Reaction.copy'), ('chempy/chemistry.py', 'Reaction.__init__'),
@@ -436,7 +526,7 @@ class C10(Property):
                                              'radiolytic_yield_beta', 'energy', 'bogus_x', 'bogus', 'length_', 'doserate_a_b'])})
         for _ in range(share(0.05)):
             order = rng.randint(0, 3)
-            args = [{'mag': _rand_mag(rng), 'u': _rate_unit(rng, order, rng.choice([None, None] + WRONGS))}]
+            args = [_typify(rng, {'mag': _rand_mag(rng), 'u': _rate_unit(rng, order, rng.choice([None, None] + WRONGS))}, free=True)]
             if rng.random() < 0.5:
                 args.append({'mag': _rand_mag(rng), 'u': [['K', 1]]})
             if rng.random() < 0.2:
@@ -457,7 +547,23 @@ class C10(Property):
             param = {'mag': _rand_mag(rng), 'u': []}
         else:
             param = {'mag': _rand_mag(rng), 'u': _rate_unit(rng, order, wrong)}
-        return {'kind': 'accept', 'reac': reac, 'prod': {'D': 1}, 'param': param, 'wrong': wrong}
+        c = {'kind': 'accept', 'reac': reac, 'prod': {'D': 1}, 'param': _typify(rng, param, free=True), 'wrong': wrong}
+        return self._with_inactive(rng, c)
+
+    def _with_inactive(self, rng, c):
+        """inactive (parenthesised) reactants / products — they take part in the net stoichiometry, not in the mass-action
+        expression — through the constructor or through from_string('… + (H2O) …')"""
+        if rng.random() < 0.3:
+            for key, names in (('inact_reac', ['X', 'Y']), ('inact_prod', ['Z', 'W'])):
+                d = {}
+                for _ in range(rng.choice([0, 1, 1, 2])):
+                    x = rng.choice(names)
+                    d[x] = d.get(x, 0) + 1
+                c[key] = d
+            p = c['param']
+            if p.get('u') and not p.get('mt') and rng.random() < 0.5:
+                c['via'] = 'string'
+        return c
 
     def _equilibrium_case(self, rng):
         nr, np_ = rng.randint(0, 3), rng.randint(0, 3)
@@ -482,8 +588,8 @@ class C10(Property):
         else:             # wrong dimension, in SI-coherent (simplified unit magnitude 1) and non-coherent units alike
             ul = self._wrong_eq_unit(rng, e)
         kind = 'num' if rng.random() < 0.05 else 'qty'
-        param = {'num': _rand_mag(rng)} if kind == 'num' else {'mag': _rand_mag(rng), 'u': ul}
-        return {'kind': 'equilibrium', 'reac': reac, 'prod': prod, 'param': param}
+        param = {'num': _rand_mag(rng)} if kind == 'num' else _typify(rng, {'mag': _rand_mag(rng), 'u': ul}, free=True)
+        return self._with_inactive(rng, {'kind': 'equilibrium', 'reac': reac, 'prod': prod, 'param': param})
 
     def _wrong_eq_unit(self, rng, e):
         """a unit expression whose dimension is NOT concentration^e: another power of concentration (each factor in its own
@@ -525,17 +631,29 @@ class C10(Property):
         out = []
         for reac, prod in shapes:
             for ul in units:
-                out.append({'kind': 'equilibrium', 'reac': dict(reac), 'prod': dict(prod),
-                            'param': {'mag': rng.choice(['1', '3', _rand_mag(rng)]), 'u': [list(x) for x in ul]}})
+                c = {'kind': 'equilibrium', 'reac': dict(reac), 'prod': dict(prod),
+                     'param': {'mag': rng.choice(['1', '3', _rand_mag(rng)]), 'u': [list(x) for x in ul]}}
+                out.append(c)
+                if rng.random() < 0.5:      # the same with a net count of inactive species of -1, +1 or +2
+                    c2 = json.loads(json.dumps(c))
+                    c2['inact_reac'], c2['inact_prod'] = rng.choice([({'X': 1}, {}), ({}, {'Z': 1}), ({}, {'Z': 2}), ({'X': 1}, {'Z': 1, 'W': 1})])
+                    if c2['param']['u'] and rng.random() < 0.5:
+                        c2['via'] = 'string'
+                    out.append(c2)
         return out
 
-    def _ode_case(self, rng, tier, named, spectator=False):
+    def _ode_case(self, rng, tier, named, spectator=False, typed=None):
         subst, rxns = _rand_system(rng, tier, spectator)
-        phys_k = [_nice(rng) for _ in rxns]
-        phys_c = {s: _nice(rng) for s in subst}
-        return {'kind': 'ode_named' if named else 'ode', 'spectator': spectator, 'subst': subst, 'rxns': rxns,
+        typed = (rng.random() < 0.3) if typed is None else typed
+        if typed:       # configuration A in integer / numpy-scalar / Fraction magnitudes; B re-expresses the same physics in floats
+            conf_a, phys_k, phys_c = _typed_config(rng, subst, rxns)
+        else:
+            phys_k = [_nice(rng) for _ in rxns]
+            phys_c = {s: _nice(rng) for s in subst}
+            conf_a = _config(rng, subst, rxns, phys_k, phys_c)
+        return {'kind': 'ode_named' if named else 'ode', 'spectator': spectator, 'typed': typed, 'subst': subst, 'rxns': rxns,
                 'phys_k': [str(k) for k in phys_k], 'phys_c': {s: str(v) for s, v in phys_c.items()},
-                'A': _config(rng, subst, rxns, phys_k, phys_c), 'B': _config(rng, subst, rxns, phys_k, phys_c)}
+                'A': conf_a, 'B': _config(rng, subst, rxns, phys_k, phys_c)}
 
     def _as_reactions_case(self, rng):
         nf, nb = rng.randint(1, 3), rng.randint(1, 2)
@@ -589,10 +707,11 @@ class C10(Property):
             keys = ['k1'] + rng.sample(pool[1:], len(rxns) - 1)      # every system reuses 'k1'
             if rng.random() < 0.3:
                 rng.shuffle(keys)
-            phys_k = [_nice(rng) for _ in rxns]
-            phys_c = {x: _nice(rng) for x in subst}
-            systems.append({'subst': subst, 'rxns': rxns, 'keys': keys, 'include': rng.random() < 0.7,
-                            'conf': _config(rng, subst, rxns, phys_k, phys_c)})
+            if rng.random() < 0.3:
+                conf = _typed_config(rng, subst, rxns)[0]
+            else:
+                conf = _config(rng, subst, rxns, [_nice(rng) for _ in rxns], {x: _nice(rng) for x in subst})
+            systems.append({'subst': subst, 'rxns': rxns, 'keys': keys, 'include': rng.random() < 0.7, 'conf': conf})
         return {'kind': 'history', 'systems': systems}
 
     def _expr_case(self, rng):
@@ -622,7 +741,13 @@ class C10(Property):
     def _roundtrip_case(self, rng, tier):
         c = self._ode_case(rng, tier, named=True)
         c['kind'] = 'roundtrip'
-        c['x'] = [{'mag': _rand_mag(rng), 'u': [[rng.choice(TIME_UNITS), 1]]} for _ in range(rng.randint(1, 3))]
+        c['x'] = [_typify(rng, {'mag': _rand_mag(rng), 'u': [[rng.choice(TIME_UNITS), 1]]}, free=True) for _ in range(rng.randint(1, 3))]
+        if rng.random() < 0.3:      # the times as ONE Quantity array of integer / float32 dtype
+            c['x_array'] = _typed_array(rng, rng.randint(1, 3), [[rng.choice(TIME_UNITS), 1]])
+            c['x'] = [{'mag': m, 'u': c['x_array']['u']} for m in c['x_array']['mags']]
+        if rng.random() < 0.3:      # the concentrations as ONE Quantity array
+            c['y_array'] = _typed_array(rng, len(c['subst']), _conc_units(rng))
+            c['A']['c0'] = {x: {'mag': m, 'u': c['y_array']['u']} for x, m in zip(c['subst'], c['y_array']['mags'])}
         r = rng.random()
         c['out_t'] = None if r < 0.4 else ([[rng.choice(TIME_UNITS), 1]] if r < 0.9 else [['m', 1]])
         r = rng.random()
@@ -643,6 +768,11 @@ class C10(Property):
 
     def _model_case(self, c):
         k = c['kind']
+        if k in ('accept', 'equilibrium') and ('inact_reac' in c or 'inact_prod' in c):
+            vals = lambda key: [n for _, n in sorted(c.get(key, {}).items())]
+            return {'op': 'reaction_check_s' if k == 'accept' else 'equilibrium_check_s', 'param': _mj(c['param']),
+                    'reac': vals('reac'), 'prod': vals('prod'), 'inact_reac': vals('inact_reac'), 'inact_prod': vals('inact_prod'),
+                    'kind': k}
         if k == 'accept':
             return {'op': 'reaction_check', 'param': _mj(c['param']), 'order': sum(c['reac'].values()), 'kind': k}
         if k == 'equilibrium':
@@ -696,10 +826,12 @@ class C10(Property):
         if k == 'accept':
             p = c['param']
             tag = 'plain' if 'num' in p else 'unitobj' if 'unitobj' in p else ('right' if not c.get('wrong') else 'wrong-' + c['wrong'])
-            return 'accept order=%d %s' % (sum(c['reac'].values()), tag)
+            return 'accept order=%d %s%s' % (sum(c['reac'].values()), tag, self._tags(c))
         if k in ('ode', 'ode_named'):
             if c.get('spectator'):
                 return k + ' with a spectator substance'
+            if c.get('typed'):
+                return k + ' with integer / numpy-scalar / Fraction magnitudes'
             return '%s orders=%s' % (k, ''.join(str(sum(r['reac'].values())) for r in c['rxns']))
         if k == 'equilibrium':
             if _eq_quirk_class(c):
@@ -712,7 +844,7 @@ class C10(Property):
                 return 'equilibrium delta=%d plain constant' % e
             f, d = _book_u(p['u'])
             tag = 'right dimension' if d == tuple(e * x for x in CONC) else 'WRONG dimension'
-            return 'equilibrium delta=%d %s, unit %s' % (e, tag, 'SI-coherent (factor 1)' if f == 1 else 'not coherent')
+            return 'equilibrium delta=%d %s, unit %s%s' % (e, tag, 'SI-coherent (factor 1)' if f == 1 else 'not coherent', self._tags(c))
         if k == 'as_reactions':
             return 'as_reactions mode=%s units=%s K=%s' % (c['mode'], c['units'], 'plain' if 'num' in c['K'] else 'quantity')
         if k == 'ode_expr':
@@ -723,6 +855,34 @@ class C10(Property):
         return k
 
     # ------------------------------------------------------------------------------------------------ real code
+    def _mk(self, c, **kw):
+        """the Reaction / Equilibrium of an accept / equilibrium case: constructor (with inact_reac / inact_prod) or from_string"""
+        import chempy
+        cls = chempy.Reaction if c['kind'] == 'accept' else chempy.Equilibrium
+        if c.get('via') == 'string':
+            side = lambda act, inact: ' + '.join(['%d %s' % (n, x) for x, n in sorted(act.items())] +
+                                                 ['(%d %s)' % (n, x) for x, n in sorted(inact.items())])
+            p = c['param']
+            ptxt = '*'.join([repr(float(F(p['mag'])))] + ['%s**%d' % (name, e) for name, e in p['u']])
+            txt = '%s %s %s; %s' % (side(c['reac'], c.get('inact_reac', {})), '->' if c['kind'] == 'accept' else '=',
+                                    side(c['prod'], c.get('inact_prod', {})), ptxt)
+            r = cls.from_string(txt, **kw)
+            want = [dict(c['reac']), dict(c['prod']), dict(c.get('inact_reac', {})), dict(c.get('inact_prod', {}))]
+            got = [dict(r.reac), dict(r.prod), dict(r.inact_reac), dict(r.inact_prod)]
+            if got != want:
+                raise AssertionError('from_string(%r) read %r, written %r' % (txt, got, want))
+            return r
+        return cls(dict(c['reac']), dict(c['prod']), _real(c['param']), c.get('inact_reac') or None, c.get('inact_prod') or None, **kw)
+
+    def _tags(self, c):
+        t = ''
+        if 'inact_reac' in c or 'inact_prod' in c:
+            net = sum(c.get('inact_prod', {}).values()) - sum(c.get('inact_reac', {}).values())
+            t += ' +inactive(net %+d, %s)' % (net, c.get('via', 'ctor'))
+        if c['param'].get('mt'):
+            t += ' mag:' + c['param']['mt']
+        return t
+
     def _build_rsys(self, c, conf, named):
         from chempy import Reaction, ReactionSystem
         rx = []
@@ -755,13 +915,8 @@ class C10(Property):
         with warnings.catch_warnings():
             warnings.simplefilter('ignore')
             try:
-                if k == 'accept':
-                    from chempy import Reaction
-                    Reaction(dict(c['reac']), dict(c['prod']), _real(c['param']))
-                    return 'ok'
-                if k == 'equilibrium':
-                    from chempy import Equilibrium
-                    Equilibrium(dict(c['reac']), dict(c['prod']), _real(c['param']))
+                if k in ('accept', 'equilibrium'):
+                    self._mk(c)
                     return 'ok'
                 if k == 'history':
                     return json.dumps(self._run_history(c)[-1])
@@ -861,7 +1016,9 @@ class C10(Property):
         odesys, extra = get_odesys(rsys, include_params=False, unit_registry=_real_reg(a['reg']),
                                    output_time_unit=unit(c['out_t']), output_conc_unit=unit(c['out_c']))
         cbs = odesys.to_arrays_callbacks
-        ins = [[_real(q) for q in c['x']], [_real(a['c0'][s]) for s in c['subst']], [_real(q) for q in a['ks']]]
+        ins = [_real_array(c['x_array']) if c.get('x_array') else [_real(q) for q in c['x']],
+               _real_array(c['y_array']) if c.get('y_array') else [_real(a['c0'][s]) for s in c['subst']],
+               [_real(q) for q in a['ks']]]
         before = _snap(ins)
         x = cbs[0](ins[0])
         y = cbs[1](ins[1])
@@ -1051,11 +1208,15 @@ class C10(Property):
         else:
             expect = _book(p)[2] == rate_dims(order)
         try:
-            Reaction(dict(c['reac']), dict(c['prod']), _real(p))
+            self._mk(c)
             got = True
+        except AssertionError as e:
+            return str(e)
         except Exception:
             got = False
-        r = Reaction(dict(c['reac']), dict(c['prod']), _real(p), checks=())
+        r = self._mk(c, checks=())
+        if r.order() != order:
+            return 'order() = %r for active reactants %s (inactive %s)' % (r.order(), c['reac'], c.get('inact_reac'))
         try:
             got2 = bool(r.check_consistent_units())
         except Exception as e:
@@ -1077,11 +1238,13 @@ class C10(Property):
         p = c['param']
         e = sum(c['prod'].values()) - sum(c['reac'].values())
         try:
-            Equilibrium(dict(c['reac']), dict(c['prod']), _real(p))
+            self._mk(c)
             got = True
+        except AssertionError as e_:
+            return str(e_)
         except ValueError:
             got = False
-        eq = Equilibrium(dict(c['reac']), dict(c['prod']), _real(p), checks=())
+        eq = self._mk(c, checks=())
         if bool(eq.check_consistent_units()) != got:
             return 'Equilibrium constructor and check_consistent_units() disagree'
         if 'num' in p:
@@ -1262,17 +1425,30 @@ class C10(Property):
         variables = {x: _real(conf['c0'][x]) for x in sy['subst']}
         variables['not_a_key'] = 1.0
         before = _snap(variables)
+        typed_here = any(q.get('mt') for q in list(conf['ks']) + list(conf['c0'].values()))
+        rates = None
         try:
             rates = rsys.rates(variables)
             for r in rx:
                 r.rate(variables)
                 r.rate_expr()(variables, reaction=r)
-            v2 = dict(variables)
-            b2 = _snap(v2)
+        except Exception as e:
+            # finding 7 (notes/C10.md): the in-place `result *= variables[k] ** v` (MassAction.active_conc_prod) and
+            # `result[k] += v` (ReactionSystem.rates) cannot combine quantities of integer / object dtype with float ones
+            # (numpy UFuncTypeError).  Reported to the coordinator; listed as known finding -> KNOWN-FINDING line.
+            if exc_name(e) == 'UFuncTypeError' and typed_here:
+                if self._listed(RATES_INT_KEY):
+                    return '[rates in-place add] Reaction.rate / ReactionSystem.rates with integer / object dtype quantities raised %s' % str(e)[:150]
+                rates = None
+            else:
+                return 'evaluating the rate expressions on a variables dict raised %s: %s' % (exc_name(e), str(e)[:160])
+        v2 = dict(variables)
+        b2 = _snap(v2)
+        try:
             for r in rx:
                 r.rate_expr().dedimensionalisation(_real_reg(conf['reg']), v2)
         except Exception as e:
-            return 'evaluating the rate expressions on a variables dict raised %s: %s' % (exc_name(e), str(e)[:160])
+            return 'dedimensionalisation with a variables dict raised %s: %s' % (exc_name(e), str(e)[:160])
         if _snap(variables) != before:
             return 'rate evaluation modified the caller\'s variables dict: before %r, after %r' % (before, _snap(variables))
         if _snap(v2) != b2:
@@ -1281,6 +1457,8 @@ class C10(Property):
         sc = self._scales(sy, conf)
         unit = float(_reg_si(conf['reg'], CONC) / _reg_si(conf['reg'], TIME))
         for x, w, scale in zip(sy['subst'], hand, sc):
+            if rates is None:
+                break
             v, d = _read(rates[x])
             if d != _dadd(CONC, TIME, -1) or not _close(v, w, scale * unit):
                 return 'ReactionSystem.rates with quantities: rate of %s = %r %s, by hand %r mol m-3 s-1' % (x, v, d, float(w))
@@ -1430,6 +1608,17 @@ class C10(Property):
             if abs((y1 - y0) - float(w) * t_si) > 0.05 * sc * t_si + 1e-9 * abs(y0):
                 return ('unit_aware_solve over %r s: [%s] changed by %r mol m-3, hand-computed rate x t = %r'
                         % (t_si, s, y1 - y0, float(w) * t_si))
+        return None
+
+    def _listed(self, key):
+        from lib.framework import load_known
+        if not hasattr(self, '_known'):
+            self._known = load_known()[0]
+        return (self.pid, key) in self._known
+
+    def known_key(self, c, failure):
+        if isinstance(failure, str) and failure.startswith('[rates in-place add]'):
+            return RATES_INT_KEY
         return None
 
     def nontrivial(self, c):
